@@ -275,7 +275,27 @@ func c11Run(c *core.Ctx, cf c11cfg, caseID string, stream uint64) {
 		c.Inconclusive("porcupine timed out on " + caseID)
 	}
 	if int(stream)%7 == 0 {
-		c.Sample("configuration", map[string]any{"config": cf.String(), "events": len(all), "storage_keys": len(byKey)})
+		// the recorded history of one storage key that changed hands
+		var excerpt []string
+		for key, evs := range byKey {
+			gs := map[int]bool{}
+			for _, e := range evs {
+				gs[e.g] = true
+			}
+			if len(gs) < 2 {
+				continue
+			}
+			for _, e := range evs[:min(10, len(evs))] {
+				op := "get"
+				if e.put {
+					op = "put"
+				}
+				excerpt = append(excerpt, fmt.Sprintf("g%d %s [%d,%d]ns", e.g, op, e.call, e.ret))
+			}
+			_ = key
+			break
+		}
+		c.Sample("configuration", map[string]any{"config": cf.String(), "events": len(all), "storage_keys": len(byKey), "history_of_one_storage_key(first 10 events)": excerpt})
 	}
 	c.Obs("configurations", 1)
 }
